@@ -2,6 +2,7 @@
 package c08
 
 import (
+	"errors"
 	"bytes"
 	"crypto/ecdsa"
 	"crypto/elliptic"
@@ -159,6 +160,22 @@ func runCase(r *hx.Run, c hx.Case) {
 		return fs
 	}
 	spec.Embeds, spec.Attach = mk(embeds), mk(attach)
+	if strings.HasPrefix(hdrvar, "fail:") {
+		// a producer that fails on every call (after its data): position p<i> / e<i> / a<i>
+		pos := strings.TrimPrefix(hdrvar, "fail:")
+		idx := int(pos[1] - '0')
+		switch {
+		case pos[0] == 'p' && idx < len(spec.Parts):
+			spec.Parts[idx].Prod.Fail = true
+		case pos[0] == 'e' && idx < len(spec.Embeds):
+			spec.Embeds[idx].Prod.Fail = true
+		case pos[0] == 'a' && idx < len(spec.Attach):
+			spec.Attach[idx].Prod.Fail = true
+		default:
+			r.Fail(c.ID, "bad-replay", "no such producer "+pos)
+			return
+		}
+	}
 	switch hdrvar {
 	case "preform":
 		spec.Pre = []bytex.KV{{K: "X-Pre", V: []string{"preformatted value"}}}
@@ -194,9 +211,48 @@ func runCase(r *hx.Run, c hx.Case) {
 		r.Fail(c.ID, "harness-sign-setup", err.Error())
 		return
 	}
+	if strings.HasPrefix(hdrvar, "fail:") {
+		// the message cannot be rendered: nothing may be signed or written, WriteTo must return (0, error);
+		// compared with the model (kind smimefail: no signature oracle needed because nothing is signed)
+		desc := bytex.Describe(m, &spec, [3]string{}, nil)
+		sink := &bytex.Sink{K: -1}
+		n, werr, pan := bytex.SafeWriteTo(m, sink)
+		if pan != nil {
+			r.Fail(c.ID, "panic", fmt.Sprint(pan))
+			r.AddOracleOnly(c, true)
+			return
+		}
+		cls := "ok"
+		if werr != nil {
+			cls = "err"
+		}
+		mc := hx.Case{ID: c.ID + "-f", Kind: "smimefail", Args: append([]string{desc, hx.Hex([]byte("SB"))}, c.Args...)}
+		r.Add(mc, fmt.Sprintf("%s %d %s", cls, n, hx.Hex(sink.Accepted)), true)
+		if werr == nil || n != 0 || len(sink.Accepted) != 0 {
+			r.Fail(c.ID, "failing-producer-signed-"+shapeClass(shape, parts), fmt.Sprintf("shape %s %s: WriteTo returned (%d, %v) and wrote %d bytes; a message that cannot be rendered must not be signed or written", shape, hdrvar, n, werr, len(sink.Accepted)))
+		}
+		r.AddOracleOnly(c, true)
+		return
+	}
 	modelSpec := &spec
-	if hdrvar == "afterskip" {
+	if hdrvar == "afterskip" || hdrvar == "flaky" {
 		modelSpec = nil // the extra render is outside the single-render model case
+	}
+	if hdrvar == "flaky" && len(m.GetParts()) > 0 {
+		// a source that is temporarily unavailable: the first call of the first part's producer fails after a few
+		// bytes, every later call succeeds.  A render that reports success must verify all the same.
+		p0 := m.GetParts()[0]
+		content, _ := p0.GetContent()
+		calls := 0
+		p0.SetWriteFunc(func(w io.Writer) (int64, error) {
+			calls++
+			if calls == 1 {
+				n, _ := w.Write(content[:len(content)/2])
+				return int64(n), errors.New("verif: source temporarily unavailable")
+			}
+			n, err := w.Write(content)
+			return int64(n), err
+		})
 	}
 	if hdrvar == "afterskip" {
 		// a render through the other entry point first: must not disturb the signing of later renders
@@ -224,6 +280,10 @@ func runCase(r *hx.Run, c hx.Case) {
 		if pan != nil {
 			r.Fail(c.ID, "panic", fmt.Sprint(pan))
 			break
+		}
+		if werr != nil && hdrvar == "flaky" && render == 1 {
+			prev = nil
+			continue // the failed source was reported: fine; the next render must succeed and verify
 		}
 		if werr != nil {
 			r.Fail(c.ID, "render-error", werr.Error())
@@ -292,6 +352,9 @@ func shapeClass(shape string, parts [][]string) string {
 func Run(r *hx.Run, replay []hx.Case) {
 	if replay != nil {
 		for _, c := range replay {
+			if c.Kind == "smimefail" && len(c.Args) >= 9 {
+				c = hx.Case{ID: strings.TrimSuffix(c.ID, "-f"), Kind: "smimecase", Args: c.Args[2:9]}
+			}
 			if c.Kind == "smime" && len(c.Args) >= 11 {
 				c = hx.Case{ID: strings.TrimSuffix(strings.TrimSuffix(c.ID, "-r1"), "-r2"), Kind: "smimecase", Args: c.Args[4:11]}
 			}
@@ -307,7 +370,7 @@ func Run(r *hx.Run, replay []hx.Case) {
 	txt := [][]byte{[]byte("Hello signed world\r\n"), []byte("line with = and trailing blank \r\n.dot\r\n"), []byte("\xc3\xa4 UTF-8 text\r\nsecond\r\n"), []byte("no final newline")}
 	bin := [][]byte{[]byte("\x00\x01binary\xff"), bytes.Repeat([]byte("0123456789"), 30)}
 	encs := []string{"quoted-printable", "base64", "8bit"}
-	hdrvars := []string{"none", "emptygen", "ccignore", "toignore", "preform", "multiline", "lfmulti", "longsubject", "afterskip"}
+	hdrvars := []string{"none", "emptygen", "ccignore", "toignore", "preform", "multiline", "lfmulti", "longsubject", "afterskip", "flaky"}
 	names := []string{"a.bin", "a long file name that makes the disposition header exceed the folding limit.pdf", "na\xc3\xafve.txt"}
 	ci := 0
 	for n := 0; n <= 2; n++ {
@@ -316,7 +379,17 @@ func Run(r *hx.Run, replay []hx.Case) {
 				if n == 0 && e+a == 0 {
 					continue
 				}
-				for _, hv := range hdrvars {
+				hvs := append([]string(nil), hdrvars...)
+				for i := 0; i < n; i++ {
+					hvs = append(hvs, fmt.Sprintf("fail:p%d", i))
+				}
+				for i := 0; i < e; i++ {
+					hvs = append(hvs, fmt.Sprintf("fail:e%d", i))
+				}
+				for i := 0; i < a; i++ {
+					hvs = append(hvs, fmt.Sprintf("fail:a%d", i))
+				}
+				for _, hv := range hvs {
 					reps := 1
 					if thorough {
 						reps = 6
